@@ -8,12 +8,17 @@ Scenario  :F <op>*          op  ::= :g n | :l n $file line | :a fam $file line |
                             Blocks are KEPT: every :m / :s result (block or NULL) takes the next slot (0, 1, ...); :s = strdup (fam 2) /
                             strndup (fam 3) of the string held by a slot; :f cpputest_free(slot); :y slot = cpputest_realloc(slot, size);
                             :g n failAllocNumber(n) and :c clearFailedAllocs() on the failable allocator.
+          :T pre <tev>* :| <tev>* :| <tev>*   ONE test run by a TestTestingFixture: setup :| body :| teardown; tev ::= op of :F | :+ | :!
+                            (:+ UtestShell::addFailure -- recorded, the test goes on; :! FAIL() -- recorded, the test function is left);
+                            pre = failures a plugin records (preTestAction) before the test starts.
 Observation: one item per allocation (0 block, 1 NULL, 2 bad_alloc), per check (:n passes | :G n | :L $file line = what the
 failure names) and per reset (:A 0 default / 1 the test's allocator / 2 null allocator / 3 the failable one is current afterwards);
 :R only: :P res intact (strdup from a block: result, source untouched and copy right), :Q failure given (free: a failure was
 reported, the block reached the allocator it came from), :Y res failure intact (realloc: result, failure reported, bytes of the
 old or moved block as written), :E tracked clean (blocks the detector tracks at the end; after releasing them nothing the real
-allocator handed out is outstanding)."""
+allocator handed out is outstanding).
+:T only: :K before after <check item> per check that was asked (failure count of the running test before / after it), :p n at the
+end of setup, body and teardown (n = events of that test function that were started)."""
 import re
 from vlib import tz, tb
 ID = "C15"
@@ -33,15 +38,21 @@ RULE = ("(1) every allocation point of generated workloads (1-25 requests over 3
         "countdown 0..4 reaching 0 after 0..3 further requests, a designated index on the failable allocator) x 1-3 blocks of every wrapper family "
         "handed out before x operation while it lasts (free, realloc grow/shrink/of NULL, strdup/strndup from a block, a request) x the same "
         "operations after the reset / clear, plus valid random interleavings of all nine operations (free of NULL slots, set_out_of_memory on top "
-        "of a running countdown, several arm/reset rounds, designations installed mid-way). non-trivial = at least one designation (or arming) "
-        "and one allocation (:R: and one release / realloc / copy); distinct by text")
+        "of a running countdown, several arm/reset rounds, designations installed mid-way); (6) :T -- the never-done check asked from inside ONE "
+        "running test (TestTestingFixture): kind of pending list (by number, by location, one kind used up and the other waiting, both waiting, all "
+        "used up, none) x failures the test already has (none, 1-3 from a plugin's preTestAction, 1-3 addFailure that let the test go on, a FAIL "
+        "that left setup or body, an earlier never-done report, combinations) x asked from setup / body / teardown x asked again (same function, "
+        "next function, after clearFailedAllocs), plus random three-function soups of all events. non-trivial = at least one designation (or arming) "
+        "and one allocation (:R: and one release / realloc / copy; :T: a designation and a check that is reached); distinct by text")
 ASSUMPTIONS = ["designations denote pairwise different allocations (checked per scenario by the extracted `valid`)",
                "file names are non-NULL C strings, numbers fit an int, fewer than 2^31 allocations",
                "C level: out-of-memory is armed from a not-out-of-memory state, at most one arming between two resets; a reset issued "
                "before out-of-memory was reached while a test-installed malloc allocator is current is outside the domain (it installs the default allocator)",
                ":R: a countdown is armed from a not-out-of-memory state (set_out_of_memory may come at any time), a block is released once and "
                "not used afterwards, realloc sizes are 1..200, only index designations (failAllocNumber) on the failable allocator; realloc "
-               "is not a request that the countdown or the failable allocator counts (it never reaches alloc_memory)"]
+               "is not a request that the countdown or the failable allocator counts (it never reaches alloc_memory)",
+               ":T: the history judged is the one the test really went through (the observation tells how many events of setup / body / teardown "
+               "were started); when a test function is left is modelled (report and FAIL leave it, the body is skipped after a left setup) but not demanded"]
 UNKNOWN = (b"<unknown>", 0)
 LOCS = [(b"a.c", 10), (b"a.c", 20), (b"b.c", 10), (b"a.cc", 10), (b"dir/a.c", 20), UNKNOWN]
 FAMS_LOC = [0, 1, 2, 3, 4, 5, 6]
@@ -501,6 +512,221 @@ def gen_rel(rng, tier, out):
     gen_rel_soup(rng, out, 4000 if tier == "quick" else 40000)
 
 
+# ---- :T scenarios (the never-done check asked from inside a running test that may already have failed)
+class FSim:
+    """generator-side copy of the model's pending list (head insertion, walk); only used to know which events a test carries out"""
+
+    def __init__(self):
+        self.nodes, self.cur = [], 0
+
+    def step(self, o):
+        k = o[0]
+        if k == "g":
+            self.nodes.insert(0, [o[1], 0, None])
+        elif k == "l":
+            self.nodes.insert(0, [o[1], 0, o[2]])
+        elif k == "a":
+            self.cur += 1
+            found, keep = False, []
+            for nd in self.nodes:
+                if nd[2] is not None:
+                    f = False
+                    if nd[2] == o[2]:
+                        nd[1] += 1
+                        f = nd[1] == nd[0]
+                else:
+                    f = self.cur == nd[0]
+                if f and not found:
+                    found = True
+                else:
+                    keep.append(nd)
+            self.nodes = keep
+        elif k == "c":
+            self.nodes, self.cur = [], 0
+
+
+def tsim(pre, phases):
+    """events carried out per test function, and per executed check (phase, failures before, kind of the head designation or None)"""
+    sim, n, done, asks, left_setup = FSim(), pre, [], [], False
+    for ph, evs in enumerate(phases):
+        ex = []
+        if not (ph == 1 and left_setup):
+            for e in evs:
+                ex.append(e)
+                if e[0] == "+":
+                    n += 1
+                elif e[0] == "!":
+                    n += 1
+                    left_setup = left_setup or ph == 0
+                    break
+                elif e[0] == "k":
+                    head = sim.nodes[0] if sim.nodes else None
+                    asks.append((ph, n, None if head is None else ("l" if head[2] is not None else "g")))
+                    if head is not None:
+                        n += 1
+                        left_setup = left_setup or ph == 0
+                        break
+                else:
+                    sim.step(e)
+        done.append(ex)
+    return done, asks
+
+
+def tfix(phases):
+    out = []
+    for evs in phases:
+        o2 = []
+        for e in evs:
+            if e[0] == "a" and e[1] in (7, 8) and e[2] != UNKNOWN:
+                e = ("a", 5 if e[1] == 7 else 6, e[2])
+            o2.append(e)
+        out.append(o2)
+    return out
+
+
+def tvalid(pre, phases):
+    if pre < 0 or len(phases) != 3:
+        return False
+    done, _ = tsim(pre, phases)
+    return valid_ops([e for ex in done for e in ex if e[0] not in "+!"])
+
+
+def ttext(pre, phases):
+    parts = []
+    for evs in phases:
+        parts.append(" ".join(ptext([e])[3:] if e[0] not in "+!" else ":" + e[0] for e in evs))
+    return " ".join((":T %s " % tz(pre) + " :| ".join(parts)).split())
+
+
+def tparse(s):
+    t = s.split()
+    assert t[0] == ":T"
+    pre, phases, cur, i = unz(t[1]), [], [], 2
+    while i < len(t):
+        k = t[i]
+        if k == ":|":
+            phases.append(cur); cur = []; i += 1
+        elif k in (":+", ":!"):
+            cur.append((k[1],)); i += 1
+        else:
+            n = 2 if k == ":g" else 4 if k in (":l", ":a") else 1
+            cur += pparse(":F " + " ".join(t[i:i + n])); i += n
+    phases.append(cur)
+    while len(phases) < 3:
+        phases.append([])
+    return pre, phases
+
+
+def gen_test_product(rng, out, reps):
+    kinds = ["g", "l", "g-used+l", "l-used+g", "g+l", "all-used", "none"]
+    sources = ["none", "plugin", "add", "add3", "fail", "report", "plugin+add", "fail+add"]
+    seconds = ["none", "again", "clear-again", "again-later"]
+    for _ in range(reps):
+        for kind in kinds:
+            for src in sources:
+                for where in (0, 1, 2):
+                    for second in seconds:
+                        locs = rng.sample(LOCS[:5], 2)
+                        L, M = locs
+                        pre = rng.randrange(1, 4) if "plugin" in src else 0
+                        ph = [[], [], []]
+                        # designations and the requests that use some of them up
+                        D = []
+                        far = rng.choice([2, 3, 5])
+                        if kind == "g":
+                            D = [("g", far)] + workload(rng, rng.randrange(0, far), locs)
+                        elif kind == "l":
+                            D = [("l", far, L)] + [("a", rfam(rng, L), L) for _ in range(rng.randrange(0, far))] + workload(rng, rng.randrange(0, 2), [M])
+                        elif kind == "g-used+l":
+                            D = [("l", 2, L), ("g", 1), ("a", rfam(rng, M), M)]
+                            if rng.random() < 0.5:
+                                D = [D[1], D[0], D[2]]
+                        elif kind == "l-used+g":
+                            D = [("g", 4), ("l", 1, L), ("a", rfam(rng, L), L)]
+                            if rng.random() < 0.5:
+                                D = [D[1], D[0], D[2]]
+                        elif kind == "g+l":
+                            D = [("g", rng.choice([1, 3])), ("l", rng.choice([1, 2]), L)]
+                            rng.shuffle(D)
+                            D += workload(rng, rng.randrange(0, 2), [M]) if D[0][0] == "l" or D[0][1] != 1 and D[1][1] != 1 else []
+                        elif kind == "all-used":
+                            D = [("g", 1), ("l", 1, L), ("a", rfam(rng, M), M), ("a", rfam(rng, L), L)]
+                        pd = rng.randrange(0, where + 1)
+                        if src == "report":
+                            pd = 0
+                        ph[pd] += D
+                        # the failures the test has before the check is asked
+                        w = where
+                        if "add" in src:
+                            pa = rng.randrange(pd, w + 1)
+                            ph[pa] += [("+",)] * (3 if src == "add3" else rng.choice([1, 1, 2]))
+                        if "fail" in src:
+                            pf = rng.choice([0, 1])
+                            if pf < pd:
+                                pf = pd
+                            if pf > 1:
+                                pf = 1
+                                ph[1], ph[2] = ph[2] + ph[1], []
+                            ph[pf].append(("!",))
+                            w = 2
+                        if src == "report":
+                            if w == 0:
+                                w = rng.choice([1, 2])
+                            pr = rng.randrange(0, w)
+                            if pr == 0 and w == 1:
+                                w = 2           # the body is not run when setup was left
+                            ph[pr].append(("k",))
+                        ph[w].append(("k",))
+                        if second == "again":
+                            ph[w].append(("k",))
+                        elif second == "clear-again":
+                            (ph[w + 1] if w < 2 and not (w == 0) else ph[2]).extend([("c",), ("k",)])
+                        elif second == "again-later":
+                            ph[2].append(("k",))
+                        if rng.random() < 0.3:
+                            ph[2] += workload(rng, 1, locs)
+                        ph = tfix(ph)
+                        if tvalid(pre, ph):
+                            out.append(ttext(pre, ph))
+
+
+def gen_test_soup(rng, out, n):
+    for _ in range(n):
+        locs = rng.sample(LOCS, rng.choice([1, 2, 2, 3]))
+        pre = rng.choice([0, 0, 0, 1, 2, 5])
+        ph = []
+        for p in range(3):
+            evs = []
+            for _ in range(rng.randrange(0, 9)):
+                c = rng.random()
+                if c < 0.15:
+                    evs.append(("g", rng.randrange(-1, 8)))
+                elif c < 0.30:
+                    evs.append(("l", rng.randrange(0, 4), rng.choice(locs)))
+                elif c < 0.62:
+                    l = rng.choice(locs)
+                    evs.append(("a", rfam(rng, l), l))
+                elif c < 0.80:
+                    evs.append(("k",))
+                elif c < 0.92:
+                    evs.append(("+",))
+                elif c < 0.96:
+                    evs.append(("!",))
+                else:
+                    evs.append(("c",))
+            ph.append(evs)
+        if rng.random() < 0.5:
+            ph[2].append(("k",))
+        ph = tfix(ph)
+        if tvalid(pre, ph):
+            out.append(ttext(pre, ph))
+
+
+def gen_test(rng, tier, out):
+    gen_test_product(rng, out, 4 if tier == "quick" else 30)
+    gen_test_soup(rng, out, 2500 if tier == "quick" else 30000)
+
+
 def generate(tier, rng):
     fops = []
     gen_each_point(rng, 120 if tier == "quick" else 900, fops)
@@ -513,6 +739,7 @@ def generate(tier, rng):
             out.append(ptext(ops))
     gen_count(rng, tier, out)
     gen_rel(rng, tier, out)
+    gen_test(rng, tier, out)
     return out
 
 
@@ -540,6 +767,9 @@ def nontrivial(s):
         return (":g" in t or ":l" in t) and ":a" in t
     if t[0] == ":R":
         return (":o" in t or ":d" in t or ":g" in t) and ":m" in t and (":f" in t or ":y" in t or ":s" in t)
+    if t[0] == ":T":
+        pre, ph = tparse(s)
+        return (":g" in t or ":l" in t) and bool(tsim(pre, ph)[1])
     return (":o" in t or ":d" in t) and ":m" in t
 
 
@@ -547,6 +777,23 @@ def classify(s):
     t = s.split()
     if t[0] == ":C":
         return ["C/custom" if t[1] == "1" else "C/default", "C/resets=%d" % min(t.count(":r"), 3)]
+    if t[0] == ":T":
+        pre, ph = tparse(s)
+        done, asks = tsim(pre, ph)
+        names = ["setup", "body", "teardown"]
+        lab = ["T/plugin-failures=%d" % min(pre, 3), "T/asks=%d" % min(len(asks), 4)]
+        for i, (p, n, kind) in enumerate(asks):
+            lab.append("T/ask-in-%s/%s/%s" % (names[p], "clean" if n == 0 else "1-failure" if n == 1 else "2+failures",
+                                               "nothing-pending" if kind is None else "pending-by-" + ("number" if kind == "g" else "location")))
+            if i > 0:
+                lab.append("T/asked-again" + ("-after-clear" if any(e[0] == "c" for ex in done for e in ex) else ""))
+        if any(e[0] == "!" for ex in done for e in ex):
+            lab.append("T/failed-CHECK-left-a-function")
+        if any(e[0] == "+" for ex in done for e in ex):
+            lab.append("T/addFailure")
+        if len(done[0]) < len(ph[0]):
+            lab.append("T/setup-left")
+        return sorted(set(lab))
     if t[0] == ":R":
         b, ops = rparse(s)
         lab = ["R/backing=%s" % {0: "default", 1: "custom", 3: "failable"}.get(b, b), "R/resets=%d" % min(t.count(":r"), 3)]
@@ -600,6 +847,9 @@ def signature(s, o):
     if o.startswith("!"):
         fam = sorted(set(t[i + 1] for i, x in enumerate(t) if x in (":a", ":m")))
         return "%s crash %s families=%s" % (t[0], o.split("@")[0].strip()[:60], ",".join(fam))
+    if t[0] == ":T":
+        silent = bool(re.search(r":K (\S+) \1 :n", o))
+        return ":T plugin=%s addFailure=%s FAIL=%s by-location=%s %s" % (t[1] != "0", ":+" in t, ":!" in t, ":l" in t, "check-silent" if silent else "other")
     if t[0] == ":C":
         return ":C custom=%s countdown=%s oom=%s" % (t[1], ":d" in t, ":o" in t)
     if t[0] == ":R":
@@ -626,6 +876,24 @@ def shrink(s):
             items.append(" ".join(t[i:i + n])); i += n
         for k in range(len(items)):
             yield " ".join(t[:2] + items[:k] + items[k + 1:])
+        return
+    if t[0] == ":T":
+        pre, ph = tparse(s)
+        for p in range(3):
+            for k in range(len(ph[p])):
+                c = [list(x) for x in ph]
+                del c[p][k]
+                if tvalid(pre, c):
+                    yield ttext(pre, c)
+        if pre > 0:
+            yield ttext(0, ph)
+            yield ttext(pre - 1, ph)
+        for p in range(3):
+            for k, e in enumerate(ph[p]):
+                if e[0] == "a" and e[1] != 0 and e[1] not in (7, 8):
+                    c = [list(x) for x in ph]
+                    c[p][k] = ("a", 0, e[2])
+                    yield ttext(pre, c)
         return
     if t[0] == ":R":
         b, ops = rparse(s)
@@ -674,7 +942,10 @@ LEVEL_TEXT = ("Machine-checked (Coq) theorems over an executable model of Failab
               "requests, releases, reallocs, copies from a block, armings, resets and index designations on a failable allocator: no release and "
               "no realloc raises a failure, a released block reaches the allocator it came from, realloc returns NULL exactly while out-of-memory "
               "is simulated and then changes nothing, the refused requests are exactly those told by counting, and after a reset the run continues "
-              "as from a state in which nothing was ever injected. Tied to the code by a differential run of the extracted model "
+              "as from a state in which nothing was ever injected; and for the check asked from setup / body / teardown of a running test with ANY "
+              "number of failures already recorded (t_n, quantified): a waiting designation is reported as exactly one more failure naming the head of the "
+              "list, nothing waiting changes nothing, the requests and reports of the test are those of the plain history of the events it carried out "
+              "and do not depend on the failures recorded before (the variant that keeps quiet once the test has failed is refuted). Tied to the code by a differential run of the extracted model "
               "against the real classes with every allocation point of generated workloads designated in turn, the extracted spec judging "
               "the implementation's observations.")
 LEVEL_NOTE = ("Trusted: Coq kernel, extraction (ExtrOcamlBasic), harness and generators. Modelled not verified: the C++ itself; int overflow of "
@@ -684,7 +955,8 @@ LEVEL_NOTE = ("Trusted: Coq kernel, extraction (ExtrOcamlBasic), harness and gen
               "C15_release_old_refuted with the witness malloc; set_out_of_memory; free). strdup/strndup under out-of-memory are exercised only "
               "when ENABLE_STRDUP_OOM is set (after the D5 repair). In :R scenarios the failure reporter of the private detector records and "
               "returns (a real test would leave the function at the first report); realloc is modelled as the code has it: not a request "
-              "counted by the countdown or by the failable allocator.")
+              "counted by the countdown or by the failable allocator. In :T scenarios plugin failures are added through TestResult::addFailure "
+              "(they raise the count but do not set UtestShell::hasFailed_), addFailure / FAIL / the report itself go through the test shell.")
 TECHNIQUE = "Coq proof (simulation invariant between the pending list and a counting definition of 'designated') over a hand-written executable model + extracted-model/implementation correspondence check with fault enumeration over every allocation point"
 PER_TIMEOUT = 20.0
 CRASH_IS_VIOLATION = True
